@@ -109,6 +109,9 @@ fn join_classes(p_rows: &[Vec<Val>], q_rows: &[Vec<Val>]) -> Vec<QClass> {
         }
     }
     let exp2: Vec<Vec<Val>> = exp.iter().filter(|r| matches!(&r[0], Val::Int(k) if *k >= 2)).cloned().collect();
+    // ON condition + WHERE with a single-table conjunct AND a conjunct over both tables (filter push-down through the join)
+    let lt = |a: &Val, b: &Val| matches!((a, b), (Val::Int(x), Val::Int(y)) if x < y);
+    let exp3: Vec<Vec<Val>> = exp.iter().filter(|r| matches!(&r[0], Val::Int(k) if *k >= 1) && lt(&r[1], &r[2])).cloned().collect();
     vec![
         QClass {
             name: "p join q on k".into(),
@@ -119,6 +122,18 @@ fn join_classes(p_rows: &[Vec<Val>], q_rows: &[Vec<Val>]) -> Vec<QClass> {
                 "SELECT p.k, p.v, q.w FROM p, q WHERE p.k = q.k".into(),
                 "SELECT p.k, p.v, q.w FROM q, p WHERE p.k = q.k".into(),
                 "SELECT p.k, p.v, q.w FROM p JOIN q ON p.k + 0 = q.k + 0".into(),
+            ],
+        },
+        QClass {
+            name: "p join q on k where p.k >= 1 and p.v < q.w".into(),
+            expect: exp3,
+            variants: vec![
+                "SELECT p.k, p.v, q.w FROM p JOIN q ON p.k = q.k WHERE p.k >= 1 AND p.v < q.w".into(),
+                "SELECT p.k, p.v, q.w FROM p JOIN q ON p.k = q.k WHERE p.v < q.w AND p.k >= 1".into(),
+                "SELECT p.k, p.v, q.w FROM p JOIN q ON p.k = q.k AND p.v < q.w WHERE p.k >= 1".into(),
+                "SELECT p.k, p.v, q.w FROM p JOIN q ON p.k = q.k AND p.v < q.w AND p.k >= 1".into(),
+                "SELECT p.k, p.v, q.w FROM p, q WHERE p.k = q.k AND p.k >= 1 AND p.v < q.w".into(),
+                "SELECT p.k, p.v, q.w FROM q JOIN p ON p.k = q.k WHERE p.k + 0 >= 1 AND p.v + 0 < q.w".into(),
             ],
         },
         QClass {
@@ -170,6 +185,17 @@ fn three_way_classes(a: &[Vec<Val>], b: &[Vec<Val>], c: &[Vec<Val>]) -> Vec<QCla
             ],
         },
         QClass {
+            name: "a-b on k AND b.w = 100, b-c on k (an ON conjunct that names the middle table only)".into(),
+            expect: chain.iter().filter(|r| r[2] == Val::Int(100)).cloned().collect(),
+            variants: vec![
+                format!("{sel} a JOIN b ON a.k = b.k AND b.w = 100 JOIN c ON b.k = c.k"),
+                format!("{sel} a JOIN b ON a.k = b.k JOIN c ON b.k = c.k WHERE b.w = 100"),
+                format!("{sel} a JOIN b ON a.k = b.k JOIN c ON b.k = c.k AND b.w = 100"),
+                format!("{sel} a, b, c WHERE a.k = b.k AND b.k = c.k AND b.w = 100"),
+                format!("{sel} a JOIN b ON a.k = b.k AND b.w + 0 = 100 JOIN c ON b.k = c.k"),
+            ],
+        },
+        QClass {
             name: "a-b on k, b-c on k".into(),
             expect: chain,
             variants: vec![
@@ -178,6 +204,73 @@ fn three_way_classes(a: &[Vec<Val>], b: &[Vec<Val>], c: &[Vec<Val>]) -> Vec<QCla
                 format!("{sel} c JOIN b ON b.k = c.k JOIN a ON b.k = a.k"),
                 format!("{sel} a, b, c WHERE a.k = b.k AND b.k = c.k"),
                 format!("{sel} a JOIN b ON a.k + 0 = b.k JOIN c ON b.k + 0 = c.k"),
+            ],
+        },
+    ]
+}
+
+/// a small table p(k, v) joined with a much larger one g(k, w TEXT): after ANALYZE the cost model prefers to
+/// exchange the join inputs, so these classes reach the join-commutativity alternative; the tables also differ in
+/// width, so a column read at the wrong position cannot go unnoticed
+fn asymmetric_classes(p: &[Vec<Val>], g: &[Vec<Val>]) -> Vec<QClass> {
+    let key = |r: &Vec<Val>| if let Val::Int(k) = &r[0] { Some(*k) } else { None };
+    let pairs = |f: &dyn Fn(i128, i128) -> bool| -> Vec<Vec<Val>> {
+        let mut out = vec![];
+        for a in p {
+            for b in g {
+                if let (Some(x), Some(y)) = (key(a), key(b)) {
+                    if f(x, y) {
+                        out.push(vec![Val::Int(x), Val::Int(y)]);
+                    }
+                }
+            }
+        }
+        out
+    };
+    let sel = "SELECT p.k, g.k FROM";
+    vec![
+        QClass {
+            name: "p.k > g.k (non-equi)".into(),
+            expect: pairs(&|x, y| x > y),
+            variants: vec![
+                format!("{sel} p JOIN g ON p.k > g.k"),
+                format!("{sel} g JOIN p ON p.k > g.k"),
+                format!("{sel} p, g WHERE p.k > g.k"),
+                format!("{sel} p JOIN g ON g.k < p.k"),
+                format!("{sel} p JOIN g ON p.k + 0 > g.k + 0"),
+            ],
+        },
+        QClass {
+            name: "p.k = g.k (equi, inputs of different width and size)".into(),
+            expect: pairs(&|x, y| x == y),
+            variants: vec![
+                format!("{sel} p JOIN g ON p.k = g.k"),
+                format!("{sel} g JOIN p ON p.k = g.k"),
+                format!("{sel} g JOIN p ON g.k = p.k"),
+                format!("{sel} p, g WHERE p.k = g.k"),
+                format!("{sel} p JOIN g ON p.k + 0 = g.k + 0"),
+            ],
+        },
+        QClass {
+            name: "p.k >= g.k AND g.k > 0 AND p.v > 10".into(),
+            expect: {
+                let mut out = vec![];
+                for a in p {
+                    for b in g {
+                        if let (Some(x), Some(y), Val::Int(v)) = (key(a), key(b), &a[1]) {
+                            if x >= y && y > 0 && *v > 10 {
+                                out.push(vec![Val::Int(x), Val::Int(y)]);
+                            }
+                        }
+                    }
+                }
+                out
+            },
+            variants: vec![
+                format!("{sel} p JOIN g ON p.k >= g.k WHERE g.k > 0 AND p.v > 10"),
+                format!("{sel} g JOIN p ON p.k >= g.k AND g.k > 0 WHERE p.v > 10"),
+                format!("{sel} p, g WHERE p.k >= g.k AND g.k > 0 AND p.v > 10"),
+                format!("{sel} p JOIN g ON p.k >= g.k AND g.k > 0 AND p.v > 10"),
             ],
         },
     ]
@@ -274,6 +367,9 @@ pub fn run_once(p: &PlanParams, hist: &[usize]) -> StepReport {
         if let Some(q_rows) = committed(&ex.model, "q") {
             classes.extend(join_classes(&p_rows, &q_rows));
         }
+    }
+    if let (Some(p_rows), Some(g_rows)) = (committed(&ex.model, "p"), committed(&ex.model, "g")) {
+        classes.extend(asymmetric_classes(&p_rows, &g_rows));
     }
     if let Some(m_rows) = committed(&ex.model, "m") {
         classes.extend(composite_classes(&m_rows));
